@@ -636,6 +636,39 @@ checks_3d(Ctx& ctx, const Cfg& c, const shared_ptr<const ProjDataInfoCylindrical
         ctx.count("fixed_point_checks_efficiencies_" + tag);
         ctx.count("fixed_point_checks");
       }
+      // --- efficiencies, "version without model" (model == 1 on every detector pair of the fan): data generated exactly
+      //     from that model (a) through the FanProjData route, (b) through make_fan_sum_data(sums, efficiencies, max_ring_diff, half_fan)
+      {
+        ctx.heartbeat("fixed_point_efficiencies_without_model_" + tag);
+        const int Dm = fan.get_max_delta(), hm = (fan.get_max_b(0) - fan.get_min_b(0)) / 2;
+        FanProjData unit = fan;
+        unit.fill(1);
+        apply_efficiencies(unit, Q.eff, true);
+        const double r_local = (fan_terms + 3) * vf::EPS32;
+        const double tol = exact ? 0. : 2. * r_local * L.Rp * L.Np;
+        for (int route = 0; route < 2; ++route)
+          {
+            Array<2, float> fansums(IndexRange2D(L.Rp, L.Np));
+            if (route == 0)
+              make_fan_sum_data(fansums, unit);
+            else
+              make_fan_sum_data(fansums, Q.eff, Dm, hm);
+            Array<2, float> e = Q.eff;
+            iterate_efficiencies(e, fansums, Dm, hm);
+            for (int r = 0; r < L.Rp; ++r)
+              for (int a = 0; a < L.Np; ++a)
+                if (!(std::fabs(e[r][a] - Q.eff[r][a]) <= tol * Q.eff[r][a]))
+                  {
+                    ctx.violation(std::string("fixed_point:efficiencies_without_model_") + (route == 0 ? "data_from_fan_" : "data_from_make_fan_sum_data_") + tag,
+                                  vf::fmt("detector (ring %d, det %d): true efficiency %.9g, fan sum %.9g, after iterate_efficiencies(eff, sums, max_ring_diff=%d, "
+                                          "half_fan_size=%d) %.9g (tolerance %.3g relative)",
+                                          r, a, static_cast<double>(Q.eff[r][a]), static_cast<double>(fansums[r][a]), Dm, hm, static_cast<double>(e[r][a]), tol));
+                    return false;
+                  }
+            ctx.count("fixed_point_checks_efficiencies_without_model_" + tag);
+            ctx.count("fixed_point_checks");
+          }
+      }
       // --- geo
       if (Q.have_geo)
         {
@@ -1297,26 +1330,30 @@ run_driver(Ctx& ctx, const Cfg& c, const shared_ptr<const ProjDataInfoCylindrica
         }
       else
         {
-          // reports of the first outer iteration: n_eff efficiency sub-iterations (then geo, block)
+          // reports per outer iteration: n_eff efficiency sub-iterations, then one after the geo and one after the block step
           ctx.count("driver_kl_reports", static_cast<long>(kls.size()));
-          for (int j = 1; j < n_eff && ok; ++j)
-            {
-              // info() prints 6 significant digits
-              // plus the float32 rounding of the model entries the KL is computed from: |dKL| <= sum (n + mu) eps
-              const double band = 4e-6 * std::fabs(kls[j - 1]) + 64 * vf::EPS32 * total_counts + 1e-9;
-              if (!(kls[j] <= kls[j - 1] + band))
-                {
-                  if (c.Dp == 0)
-                    {
-                      ctx.violation("driver:kl_report_ascends", vf::fmt("efficiency sub-iteration %d -> %d: reported KL %.9g -> %.9g", j, j + 1, kls[j - 1], kls[j]));
-                      ok = false;
-                    }
-                  else
-                    ctx.count("observed_driver_KL_increase_with_oblique_segments");
-                }
-              else
-                ctx.count(c.Dp == 0 ? "kl_steps_checked_driver" : "kl_steps_observed_driver_oblique");
-            }
+          const int per_outer = n_eff + 2;
+          for (int it = 0; it < n_it && ok && static_cast<int>(kls.size()) >= it * per_outer + n_eff; ++it)
+            for (int j = 1; j < n_eff && ok; ++j)
+              {
+                const double before = kls[it * per_outer + j - 1], after = kls[it * per_outer + j];
+                // info() prints 6 significant digits
+                // plus the float32 rounding of the model entries the KL is computed from: |dKL| <= sum (n + mu) eps
+                const double band = 4e-6 * std::fabs(before) + 64 * vf::EPS32 * total_counts + 1e-9;
+                if (!(after <= before + band))
+                  {
+                    if (c.Dp == 0)
+                      {
+                        ctx.violation("driver:kl_report_ascends", vf::fmt("outer iteration %d, efficiency sub-iteration %d -> %d: reported KL %.9g -> %.9g",
+                                                                          it + 1, j, j + 1, before, after));
+                        ok = false;
+                      }
+                    else
+                      ctx.count("observed_driver_KL_increase_with_oblique_segments");
+                  }
+                else
+                  ctx.count(c.Dp == 0 ? "kl_steps_checked_driver" : "kl_steps_observed_driver_oblique");
+              }
         }
     }
   // outputs of the first sub-iteration exist and parse
@@ -1330,6 +1367,16 @@ run_driver(Ctx& ctx, const Cfg& c, const shared_ptr<const ProjDataInfoCylindrica
           ctx.violation("driver:efficiency_output", vf::fmt("%s_eff_1_1.out missing or not %d x %d (exception: '%s')", prefix.c_str(), L.Rp, L.Np, thrown.c_str()));
           ok = false;
         }
+    }
+  // an outer iteration is complete when its last efficiency file and its geo and block files were written
+  for (int it = 1; it <= n_it; ++it)
+    {
+      bool all = true;
+      for (const std::string& f : { prefix + "_eff_" + std::to_string(it) + "_" + std::to_string(n_eff) + ".out", prefix + "_geo_" + std::to_string(it) + ".out",
+                                    prefix + "_block_" + std::to_string(it) + ".out" })
+        all = all && std::ifstream(f).good();
+      if (all)
+        ctx.count("driver_outer_iterations_completed");
     }
   for (int it = 1; it <= n_it; ++it)
     {
